@@ -258,48 +258,83 @@ theorem iw_new_ladder (sc : Mat α) (df : Nat) :
     split_ifs <;> first | rfl | (exfalso; omega)
 
 -- @site NormalInvWishart::new
-/-- `NormalInvWishart::new` / `validate_params`: ladder, in the order of the code (`k`, `df`, squareness, dimension) -/
+/-- `NormalInvWishart::new` / `validate_params`: ladder, in the order of the code (`k`, `df`, squareness, dimension).
+    The `k` test is `!(k > 0.0)` (commit 395fe75): everything that is not `> 0` — NaN included — is `KTooLow`. -/
 theorem niw_new_ladder (mu : Vec α) (k : α) (df : Nat) (sc : Mat α) :
-    (RealLike.le k (0.0 : α) = true → NormalInvWishart.new mu k df sc = .error (Err.mk "KTooLow" [k]))
-    ∧ (RealLike.le k (0.0 : α) = false → df < mu.length →
+    (RealLike.gt k (0.0 : α) = false → NormalInvWishart.new mu k df sc = .error (Err.mk "KTooLow" [k]))
+    ∧ (RealLike.gt k (0.0 : α) = true → df < mu.length →
         NormalInvWishart.new mu k df sc
           = .error (Err.mk "DfLessThanDimensions" [RealLike.ofNatR df, RealLike.ofNatR mu.length]))
-    ∧ (RealLike.le k (0.0 : α) = false → mu.length ≤ df → nrows sc ≠ ncols sc →
+    ∧ (RealLike.gt k (0.0 : α) = true → mu.length ≤ df → nrows sc ≠ ncols sc →
         NormalInvWishart.new mu k df sc
           = .error (Err.mk "ScaleMatrixNotSquare" [RealLike.ofNatR (nrows sc), RealLike.ofNatR (ncols sc)]))
-    ∧ (RealLike.le k (0.0 : α) = false → mu.length ≤ df → nrows sc = ncols sc → mu.length ≠ nrows sc →
+    ∧ (RealLike.gt k (0.0 : α) = true → mu.length ≤ df → nrows sc = ncols sc → mu.length ≠ nrows sc →
         NormalInvWishart.new mu k df sc
           = .error (Err.mk "MuScaleDimensionMismatch" [RealLike.ofNatR mu.length, RealLike.ofNatR (nrows sc)]))
-    ∧ (RealLike.le k (0.0 : α) = false → mu.length ≤ df → nrows sc = ncols sc → mu.length = nrows sc →
+    ∧ (RealLike.gt k (0.0 : α) = true → mu.length ≤ df → nrows sc = ncols sc → mu.length = nrows sc →
         NormalInvWishart.new mu k df sc = .ok ⟨mu, k, df, sc⟩) := by
   refine ⟨fun h => ?_, fun h0 h => ?_, fun h0 h1 h2 => ?_, fun h0 h1 h2 h3 => ?_, fun h0 h1 h2 h3 => ?_⟩
   all_goals
     simp only [NormalInvWishart.new, NormalInvWishart.validate_params, isSquare, beq_iff_eq]
     split_ifs <;> first | rfl | (exfalso; omega) | simp_all
 
+-- @site NormalInvWishart::set_k
+/-- `set_k`: same test -/
+theorem niw_set_k_ladder (p : NormalInvWishart α) (k : α) :
+    (RealLike.gt k (0.0 : α) = false → p.set_k k = .error (Err.mk "KTooLow" [k]))
+    ∧ (RealLike.gt k (0.0 : α) = true → p.set_k k = .ok { p with k := k }) := by
+  refine ⟨fun h => ?_, fun h => ?_⟩ <;> simp [NormalInvWishart.set_k, h]
+
 end Validation
 
 -- @site NormalInvWishart::new
-/-- on exact reals the `k` test is `k ≤ 0` -/
+/-- on exact reals the `k` test rejects exactly `k ≤ 0` -/
 theorem niw_new_k_R (mu : Vec R) (k : R) (df : Nat) (sc : Mat R) (hk : k.val ≤ 0) :
     NormalInvWishart.new mu k df sc = .error (Err.mk "KTooLow" [k]) := by
   apply (niw_new_ladder mu k df sc).1
-  rw [R.le_iff, R.sci_val]; norm_num; exact hk
+  show RealLike.lt (0.0 : R) k = false
+  rw [R.lt_false_iff, zero_val]; exact not_lt.mpr hk
 
 -- @site NormalInvWishart::new
-/-- DEFECT: `k <= 0.0` is false for NaN, so `NormalInvWishart::new` (and `set_k`) ACCEPT `k = NaN`
-    (documented domain: `k > 0`).  Witness confirmed on the real code:
-    `niw.new - L1 xbffe058416e06640 xNaN 2 1 1 L1 x3ff0000000000000` ↦ `ok`. -/
-theorem niw_new_nan_k_counterexample :
-    NormalInvWishart.new [X.fin (-1.87)] X.nan 2 [[X.fin 1]]
-      = .ok (⟨[X.fin (-1.87)], X.nan, 2, [[X.fin 1]]⟩ : NormalInvWishart X) := by
-  apply (niw_new_ladder _ _ _ _).2.2.2.2 <;> simp [nrows, ncols]
+/-- the `k` test on the carrier `X` (IEEE special values): passed exactly by the finite positive values and `+inf` -/
+theorem niw_k_test_X (k : X) :
+    RealLike.gt k (0.0 : X) = true ↔ (k = X.pinf ∨ ∃ r : ℝ, 0 < r ∧ k = X.fin r) := by
+  have h0 : (0.0 : X) = X.fin 0 := by rw [X.sci_eq]; norm_num
+  rw [h0]
+  show RealLike.lt (X.fin 0) k = true ↔ _
+  rcases k with _ | _ | _ | r <;> simp
+
+-- @site NormalInvWishart::new
+/-- REPAIRED (commit 395fe75; before: `k <= 0.0` let NaN through): `k = NaN` is rejected with `KTooLow`, whatever the other
+    arguments.  Former witness `niw.new - L1 xbffe058416e06640 xNaN 2 1 1 L1 x3ff0000000000000` now ↦ `E:KTooLow`. -/
+theorem niw_new_nan_k_rejected (mu : Vec X) (df : Nat) (sc : Mat X) :
+    NormalInvWishart.new mu X.nan df sc = .error (Err.mk "KTooLow" [X.nan]) := by
+  apply (niw_new_ladder mu X.nan df sc).1
+  cases h : RealLike.gt X.nan (0.0 : X) with
+  | false => rfl
+  | true => rcases (niw_k_test_X X.nan).mp h with h1 | ⟨r, _, h1⟩ <;> cases h1
+
+-- @site NormalInvWishart::new
+/-- every accepted `k` is `> 0` (finite or `+inf`), in particular not NaN, not zero, not negative -/
+theorem niw_new_ok_k_pos (mu : Vec X) (k : X) (df : Nat) (sc : Mat X) (p : NormalInvWishart X)
+    (h : NormalInvWishart.new mu k df sc = .ok p) : k = X.pinf ∨ ∃ r : ℝ, 0 < r ∧ k = X.fin r := by
+  apply (niw_k_test_X k).mp
+  cases hk : RealLike.gt k (0.0 : X) with
+  | true => rfl
+  | false => rw [(niw_new_ladder mu k df sc).1 hk] at h; cases h
 
 -- @site NormalInvWishart::set_k
-/-- same for the setter -/
-theorem niw_set_k_nan_counterexample (p : NormalInvWishart X) :
-    p.set_k X.nan = .ok { p with k := X.nan } := by
-  simp [NormalInvWishart.set_k]
+/-- same for the setter: NaN is rejected -/
+theorem niw_set_k_nan_rejected (p : NormalInvWishart X) :
+    p.set_k X.nan = .error (Err.mk "KTooLow" [X.nan]) := by
+  apply (niw_set_k_ladder p X.nan).1
+  cases h : RealLike.gt X.nan (0.0 : X) with
+  | false => rfl
+  | true => rcases (niw_k_test_X X.nan).mp h with h1 | ⟨r, _, h1⟩ <;> cases h1
+
+example : ∃ p, NormalInvWishart.new [X.fin (-1.87)] (X.fin 0.5) 2 [[X.fin 1]] = .ok p :=
+  ⟨_, (niw_new_ladder _ _ _ _).2.2.2.2 ((niw_k_test_X _).mpr (Or.inr ⟨0.5, by norm_num, rfl⟩)) (by simp)
+    (by simp [nrows, ncols]) (by simp [nrows])⟩
 
 section Empty
 variable {α : Type} [RealLike α]
@@ -361,8 +396,11 @@ end C15
 #print axioms C15.iw_new_ladder
 #print axioms C15.niw_new_ladder
 #print axioms C15.niw_new_k_R
-#print axioms C15.niw_new_nan_k_counterexample
-#print axioms C15.niw_set_k_nan_counterexample
+#print axioms C15.niw_set_k_ladder
+#print axioms C15.niw_k_test_X
+#print axioms C15.niw_new_nan_k_rejected
+#print axioms C15.niw_new_ok_k_pos
+#print axioms C15.niw_set_k_nan_rejected
 #print axioms C15.niw_posterior_empty_data
 #print axioms C15.niw_posterior_empty_stat
 #print axioms C15.niw_ln_m_empty
